@@ -22,6 +22,9 @@ Fixpoint mkpay_f (n : nat) (i cur : N) : string :=
   end.
 Definition mkpay (size fill : Z) : string := mkpay_f (Z.to_nat size) 0%N (Z.to_N (fill mod 256)).
 
+(* the harness' long alert-hash lists (they make an nflog entry oversized): 2^63 + seed*1000 + i, i < n *)
+Definition bigh (n seed : Z) : list Z := map (fun i => 9223372036854775808 + seed * 1000 + i) (seqZ 0 n).
+
 (* ---------- KChan instance ---------- *)
 Definition wire_str (marshal_ok : bool) : wire string string :=
   mkWire string string (fun k b => if marshal_ok then Some (enc_part k b) else None) slen
@@ -104,12 +107,13 @@ Record dcase := mkD {
 Definition mask_exp (e : entry) : entry :=
   mkEntry (e_gkey e) (e_recv e) (e_ts e) 0 (e_firing e) (e_resolved e) (e_data e).
 
-Definition view_of (qs : list (string * string)) (p : gmap string gstate) : list (string * kobs) :=
-  map (fun '(k, s) =>
-         (k, match s with
-             | SNfl st => ONfl (map (fun '(recv, gkey) => mask_exp <$> (st !! skey_of gkey recv)) qs)
-             | SSil v => OSil v
-             end)) (map_to_list p).
+Definition view_of (qs : list (string * string)) (keys : list string) (p : gmap string gstate) : list (string * kobs) :=
+  omap (fun k =>
+          match p !! k with
+          | Some (SNfl st) => Some (k, ONfl (map (fun '(recv, gkey) => mask_exp <$> (st !! skey_of gkey recv)) qs))
+          | Some (SSil v) => Some (k, OSil v)
+          | None => None
+          end) keys.
 
 Definition init_peer (regs : list (string * bool)) : gmap string gstate :=
   list_to_map (map (fun '(k, isn) => (k, if isn : bool then SNfl ∅ else SSil [])) regs).
@@ -143,7 +147,7 @@ Definition dstep (ret : Z) (now : Z) (o : dop) (p : gmap string gstate) : gmap s
   | DTick => (p, true)
   end.
 
-Fixpoint drun (ret : Z) (qs : list (string * string)) (ps : list (gmap string gstate))
+Fixpoint drun (ret : Z) (qs : list (string * string)) (keys : list (list string)) (ps : list (gmap string gstate))
          (h : list (Z * nat * dop)) : list dout :=
   match h with
   | [] => []
@@ -152,12 +156,12 @@ Fixpoint drun (ret : Z) (qs : list (string * string)) (ps : list (gmap string gs
       | None => [mkOut false []]
       | Some p =>
           let '(p', ok) := dstep ret now o p in
-          mkOut ok (view_of qs p') :: drun ret qs (<[i := p']> ps) r
+          mkOut ok (view_of qs (default [] (keys !! i)) p') :: drun ret qs keys (<[i := p']> ps) r
       end
   end.
 
 Definition deleg_model (c : dcase) : list dout :=
-  drun (d_ret c) (d_queries c) (map init_peer (d_peers c)) (map fst (d_hist c)).
+  drun (d_ret c) (d_queries c) (map (map fst) (d_peers c)) (map init_peer (d_peers c)) (map fst (d_hist c)).
 
 (* executable property on the model run: never backwards for every nflog key of the target peer on every op;
    after NotifyMsg / MergeRemoteState every unexpired entry of every decodable nflog payload addressed to a
